@@ -81,9 +81,10 @@ theorem natToStr_length_le {n : Nat} (h : n ≤ 65535) : (natToStr n).length ≤
   exact (Nat.length_toDigits_le_iff (by decide) (by decide)).mpr (by omega)
 
 /-- the printed result of `canonicalize_url` on a cleaned string of the shape -/
-theorem canon_shape (puny : Str → Str) (hpuny : PunyLabelSafe puny) (sf : Bool)
+theorem canon_shape_on (puny : Str → Str) (sf : Bool)
     {x sch ui H po tl S rest : Str} {p : Parsed}
-    (hsh : Shape x sch ui H po tl) (hcl : Cleaned x S rest) (hp : parseUrl x = some p)
+    (hsh : Shape x sch ui H po tl) (hpuny : PunyLabelSafeOn puny (lower H))
+    (hcl : Cleaned x S rest) (hp : parseUrl x = some p)
     (hnb : '[' ∉ ui ∧ ']' ∉ ui) :
     ∃ ui' po' tl', Shape (urlunsplit (canonParts puny false sf p)) (lower sch) ui'
         (canonHost puny (lower H)) po' tl' ∧
@@ -128,7 +129,7 @@ theorem canon_shape (puny : Str → Str) (hpuny : PunyLabelSafe puny) (sf : Bool
     · right; right; right; right; right; right; left; exact h
   have hnl_ctl : NoCtl (ui ++ (H ++ po)) := NoCtl.of_subset hnl_sub hxctl
   -- the host
-  obtain ⟨hHc, _⟩ := host_canon puny hpuny hsh.host
+  obtain ⟨hHc, _⟩ := host_canon_on puny hsh.host hpuny
   have hHcne := lang_host_ne_nil hHc
   have hlowne : lower H ≠ [] := by
     intro e; exact lang_host_ne_nil hsh.host (by simpa [lower] using e)
@@ -417,5 +418,19 @@ theorem canon_shape (puny : Str → Str) (hpuny : PunyLabelSafe puny) (sf : Bool
       | nil => exact absurd hn hne
       | cons _ _ => rfl
     simp [this]
+
+/-- the same under the global hypothesis on the decoder -/
+theorem canon_shape (puny : Str → Str) (hpuny : PunyLabelSafe puny) (sf : Bool)
+    {x sch ui H po tl S rest : Str} {p : Parsed}
+    (hsh : Shape x sch ui H po tl) (hcl : Cleaned x S rest) (hp : parseUrl x = some p)
+    (hnb : '[' ∉ ui ∧ ']' ∉ ui) :
+    ∃ ui' po' tl', Shape (urlunsplit (canonParts puny false sf p)) (lower sch) ui'
+        (canonHost puny (lower H)) po' tl' ∧
+      NoWs (urlunsplit (canonParts puny false sf p)) ∧
+      (ui' = [] ∨ ∃ w, ui' = w ++ ['@'] ∧ w ≠ []) ∧
+      (po' = [] ∨ ∃ ds, po' = ':' :: ds ∧ ds.length ≤ 5) ∧
+      netlocOk (ui' ++ (canonHost puny (lower H) ++ po')) = true ∧
+      printSplit (canonParts puny false sf p) = urlunsplit (canonParts puny false sf p) :=
+  canon_shape_on puny sf hsh (hpuny.on _) hcl hp hnb
 
 end Ural.UrlPattern
